@@ -335,7 +335,7 @@ PROPS["C04"] = dict(
                "(gated evaluator, sleeps) - partial by nature.",
     technique="differential + monitored scripted interleavings of the real UCI driver; Lean search-PV theorem",
     rule="deterministic scripts as in C10 with go; 30 (quick) / 400 (thorough) interleaving scripts over 10 scenario families x 5 engines; non-trivial = distinct script",
-    partial=["the small-step model UciConc is a hand transcription validated by the scripted interleavings, not by a line-by-line differential run; real scheduler/timers are exercised, not enumerated"],
+    partial=["the small-step model UciConc is tied to the code only under the canonical schedule (on every deterministic script its visible events must equal those of the sequential model, which the stream ties to the real driver) and through the scripted interleavings; real scheduler/timers are exercised, not enumerated"],
     modelled=UCI_MODELLED,
 )
 
@@ -355,7 +355,7 @@ PROPS["C16"] = dict(
     level_note="Trusted: the Go runtime; scripted interleavings cover chosen schedules only; data races are checked by the race detector in the thorough tier. Partial by nature.",
     technique="fault/interleaving enumeration through a gated evaluator + trace monitor; race detector",
     rule="10 scenario families (supersede, infinite+stop, isready during search, shutdown during search, stale movetime timer, time limits, malformed lines, go during search, abandon search, bundled engines) x random parameters; non-trivial = distinct script",
-    partial=["no_stale holds at the commit point, not at the send (inherent: forwarders send on their own; two decided schedules show it); UciConc is a hand transcription validated by the scripted interleavings; real scheduler not enumerated"],
+    partial=["no_stale holds at the commit point, not at the send (inherent: forwarders send on their own; two decided schedules show it); UciConc is tied under the canonical schedule (ucidet conformance) and by the scripted interleavings only; real scheduler not enumerated"],
     modelled=UCI_MODELLED,
 )
 
@@ -372,7 +372,7 @@ PROPS["C15"] = dict(
     level_note="Trusted: Lean kernel; Model.TimeCtl tied exactly; real timers/goroutine scheduling exercised through the gate only (partial by nature).",
     technique="Lean 4 proof of the time-limit arithmetic + differential iterative deepening vs fixed-depth searches + gated halts",
     rule="limits: 16x11x2x2 grid + 2000 random (w,b,moves); iter: 40 lines x depth limit 1-5; iterhalt: 20 positions x gate 1-40; non-trivial = distinct parameters / script",
-    partial=["IterConc is a hand transcription validated by the gated-halt scenarios and the iter stream, not line by line; real timers exercised through the gate only"],
+    partial=["IterConc is tied to the code under the canonical schedule (every iter op: the small-step model must report depths 1..d and stop exactly where the implementation did) and by the gated-halt scenarios; real timers exercised through the gate only"],
     modelled=["search/searchctl/timectrl.go: TimeControl.Limits -> Model.TimeCtl; iterative.go process loop (sequential reading) -> Driver.Misc.iterOp over Model.Search"],
 )
 
